@@ -22,3 +22,21 @@ claim("C01",
       "slice. Equality of query results with a reference model is not decided.",
       _NOTE, "ast-based ownership scan + CFG must-pass-through + order-type abstract interpretation of index arithmetic",
       "DESIGN.md §3 F2, §4 C01")
+
+claim("C10",
+      "Static analysis (level other): decides the structural clauses of the six map properties of Part — library names "
+      "resolve, the measure tables are not indexed before the emptiness default, the three previous-value maps back-fill "
+      "the first element on every non-default branch, interpolator keyword agreement, map row width vs. every "
+      "unpacking/indexing site in the package, clef/mode code tables mutually inverse. Values returned at arbitrary t are "
+      "not decided.",
+      _NOTE, "ast rules: link-time name resolution against installed numpy, CFG dominators, sibling decision tables, "
+             "constant-folded table identities, arity agreement", "DESIGN.md §4 C10")
+
+claim("C05",
+      "Static analysis (level other): decides the layout clauses of the note/rest array builders — dtype list vs. row "
+      "tuple group by group under identical guards, map row width vs. unpacking sites, stable onset-then-pitch sort in "
+      "all four builders, keyword conformance of every call among the builders, completeness of the lcm rescaling over "
+      "all division-unit columns, tie-chain row source, optional columns evaluated at the note's onset. Column values "
+      "and the array->score->array round trip are not decided.",
+      _NOTE, "ast rules: schema/arity agreement, call-signature conformance over resolved callees, sort-idiom "
+             "recognition, field-set inclusion", "DESIGN.md §4 C05")
